@@ -59,8 +59,8 @@ Definition codes_ok (h : list event) (s : st) := forall c n, In (c, n) (codes s)
 
 Definition codes_fun (s : st) := forall c n n', In (c, n) (codes s) -> In (c, n') (codes s) -> n = n'.
 
-Definition used_ok (h : list event) (s : st) := forall e cr c uri ver,
-  In e h -> e_op e = TokenCode cr (Some c) uri ver -> is_tokens (e_out e) = true ->
+Definition used_ok (h : list event) (s : st) := forall e pl f cr c uri ver,
+  In e h -> e_op e = TokenCode pl f cr (Some c) uri ver -> is_tokens (e_out e) = true ->
   c <= ncode s /\ forall n, ~ In (c, n) (codes s).
 
 Definition rts_ok (h : list event) (s : st) := forall t, In t (rtoks s) ->
@@ -71,8 +71,8 @@ Definition issued_ok (h : list event) (s : st) := forall e t0 n,
   In e h -> e_out e = OTokens t0 -> t_rt t0 = Some n ->
   n <= next s /\ forall rec, find_rt s n = Some rec -> matches t0 rec.
 
-Definition rotated_ok (h : list event) (s : st) := forall e cr n sc,
-  In e h -> e_op e = TokenRefresh cr (Some n) sc -> is_tokens (e_out e) = true ->
+Definition rotated_ok (h : list event) (s : st) := forall e pl cr n sc,
+  In e h -> e_op e = TokenRefresh pl cr (Some n) sc -> is_tokens (e_out e) = true ->
   n <= next s /\ find_rt s n = None.
 
 Record Inv (h : list event) (s : st) : Prop := {
@@ -122,7 +122,7 @@ Lemma issue_code_shape s q c :
                          /\ S (next s) <= next s' /\ matches t0 new)).
 Proof.
   unfold issue_code. cbn [fst snd reqs codes rtoks next ncode].
-  destruct (string_in "offline_access" (q_scopes q) && c_refresh c).
+  destruct (string_in "offline_access" (q_scopes q) && has_refresh s c).
   - repeat split; try lia. eexists. split; [reflexivity|]. right. eexists. cbn.
     repeat split; try reflexivity; lia.
   - repeat split; try lia. eexists. split; [reflexivity|]. left. cbn. auto.
@@ -163,19 +163,20 @@ Proof.
   assert (Hold : forall e, In e h -> In e (h ++ [ev])) by (intros; apply in_snoc; auto).
   assert (Hnew : In ev (h ++ [ev])) by (apply in_snoc; auto).
   destruct Ht as [o x Hx | cl uri scopes nonce chal | n sub stamp q Hq | n q Hq Hd
-                 | cr cd uri ver q c Hcr Hfc Hp Hu Hch Hpub | cr n scopes t c sc Hrt Hfc Hr Hfl Hp Hn].
+                 | pl f cr cd uri ver q c Hcr Hfc Hp Hu Hch Hpub | pl cr n scopes t c sc Hrt Hfc Hr Hfl Hp Hn
+                 | cl].
   - (* nothing happened *)
     constructor.
     + intros q Hin. destruct (Ireq q Hin) as [A [[e [B1 B2]] C]]. split; [exact A|]. split; [old|].
       intro Hd. destruct (C Hd) as [e' [C1 C2]]. old.
     + intros c n Hin. destruct (Icodes c n Hin) as [A [B [e [C1 C2]]]]. split; [exact A | split; [exact B | old]].
     + exact Ifun.
-    + intros e cr c uri ver Hin Ho Hk. apply in_snoc in Hin as [Hin | ->]; [eauto|].
+    + intros e pl0 f0 cr c uri ver Hin Ho Hk. apply in_snoc in Hin as [Hin | ->]; [eauto|].
       cbn in Hk. destruct x; try discriminate. contradiction.
     + intros t Hin. destruct (Irts t Hin) as [A [e [t0 [B1 B2]]]]. split; [exact A | oldrt].
     + intros e t0 n Hin Ho Hk. apply in_snoc in Hin as [Hin | ->]; [eauto|].
       cbn in Ho. subst x. contradiction.
-    + intros e cr n sc Hin Ho Hk. apply in_snoc in Hin as [Hin | ->]; [eauto|].
+    + intros e pl0 cr n sc Hin Ho Hk. apply in_snoc in Hin as [Hin | ->]; [eauto|].
       cbn in Hk. destruct x; try discriminate. contradiction.
   - (* authorize *)
     constructor; unfold req_ok, codes_ok, codes_fun, used_ok, rts_ok, issued_ok, rotated_ok, find_req, find_rt;
@@ -190,12 +191,12 @@ Proof.
       destruct (find_req_in _ _ _ B1) as [Hqin Hqid]. destruct (Ireq q Hqin) as [Hle _].
       destruct (Nat.eqb (S (next s)) n) eqn:E; [apply Nat.eqb_eq in E; lia | exact B1].
     + exact Ifun.
-    + intros e cr c uri' ver Hin Ho Hk. apply in_snoc in Hin as [Hin | ->]; [eauto | discriminate].
+    + intros e pl0 f0 cr c uri' ver Hin Ho Hk. apply in_snoc in Hin as [Hin | ->]; [eauto | discriminate].
     + intros t Hin. destruct (Irts t Hin) as [A [e [t0 [B1 B2]]]]. split; [lia | oldrt].
     + intros e t0 n Hin Ho Hk. apply in_snoc in Hin as [Hin | ->]; [|discriminate].
       destruct (Iissued e t0 n Hin Ho Hk) as [A B]. split; [lia | exact B].
-    + intros e cr n sc Hin Ho Hk. apply in_snoc in Hin as [Hin | ->]; [|discriminate].
-      destruct (Irot e cr n sc Hin Ho Hk) as [A B]. split; [lia | exact B].
+    + intros e pl0 cr n sc Hin Ho Hk. apply in_snoc in Hin as [Hin | ->]; [|discriminate].
+      destruct (Irot e pl0 cr n sc Hin Ho Hk) as [A B]. split; [lia | exact B].
   - (* login *)
     constructor; unfold req_ok, codes_ok, codes_fun, used_ok, rts_ok, issued_ok, rotated_ok, find_req, find_rt;
       cbn [reqs codes rtoks next ncode].
@@ -209,10 +210,10 @@ Proof.
       split; [unfold find_req; cbn [reqs]; rewrite find_req_login, B1; reflexivity|].
       unfold set_login. destruct (Nat.eqb (q_id q0) n); [reflexivity | exact B2].
     + exact Ifun.
-    + intros e cr c uri' ver Hin Ho Hk. apply in_snoc in Hin as [Hin | ->]; [eauto | discriminate].
+    + intros e pl0 f0 cr c uri' ver Hin Ho Hk. apply in_snoc in Hin as [Hin | ->]; [eauto | discriminate].
     + intros t Hin. destruct (Irts t Hin) as [A [e [t0 [B1 B2]]]]. split; [exact A | oldrt].
     + intros e t0 m Hin Ho Hk. apply in_snoc in Hin as [Hin | ->]; [eauto | discriminate].
-    + intros e cr m sc Hin Ho Hk. apply in_snoc in Hin as [Hin | ->]; [eauto | discriminate].
+    + intros e pl0 cr m sc Hin Ho Hk. apply in_snoc in Hin as [Hin | ->]; [eauto | discriminate].
   - (* callback *)
     constructor; unfold req_ok, codes_ok, codes_fun, used_ok, rts_ok, issued_ok, rotated_ok, find_req, find_rt;
       cbn [reqs codes rtoks next ncode].
@@ -226,12 +227,12 @@ Proof.
       * inversion E; subst. destruct (Icodes _ _ Hin') as [A _]. lia.
       * inversion E'; subst. destruct (Icodes _ _ Hin) as [A _]. lia.
       * eapply Ifun; eauto.
-    + intros e cr c uri' ver Hin Ho Hk. apply in_snoc in Hin as [Hin | ->]; [|discriminate].
-      destruct (Iused e cr c uri' ver Hin Ho Hk) as [A B]. split; [lia|].
+    + intros e pl0 f0 cr c uri' ver Hin Ho Hk. apply in_snoc in Hin as [Hin | ->]; [|discriminate].
+      destruct (Iused e pl0 f0 cr c uri' ver Hin Ho Hk) as [A B]. split; [lia|].
       intros m [E | Hin']; [inversion E; lia | eapply B; eauto].
     + intros t Hin. destruct (Irts t Hin) as [A [e [t0 [B1 B2]]]]. split; [exact A | oldrt].
     + intros e t0 m Hin Ho Hk. apply in_snoc in Hin as [Hin | ->]; [eauto | discriminate].
-    + intros e cr m sc Hin Ho Hk. apply in_snoc in Hin as [Hin | ->]; [eauto | discriminate].
+    + intros e pl0 cr m sc Hin Ho Hk. apply in_snoc in Hin as [Hin | ->]; [eauto | discriminate].
   - (* code exchange *)
     destruct (issue_code_shape s q c) as [Sreq [Scodes [Sncode [Snext [t0 [Sout Srt]]]]]].
     destruct (code_req_in _ _ _ Hcr) as [Hcin Hqf].
@@ -248,10 +249,10 @@ Proof.
       split; [lia|]. split; [|old]. exists q0. rewrite Hfr; auto.
     + intros c' m m' Hin Hin'. rewrite Scodes in Hin, Hin'.
       apply filter_In in Hin as [Hin _]. apply filter_In in Hin' as [Hin' _]. eapply Ifun; eauto.
-    + intros e cr' c' uri' ver' Hin Ho Hk. rewrite Sncode. apply in_snoc in Hin as [Hin | ->].
-      * destruct (Iused e cr' c' uri' ver' Hin Ho Hk) as [A B]. split; [exact A|].
+    + intros e pl0 f0 cr' c' uri' ver' Hin Ho Hk. rewrite Sncode. apply in_snoc in Hin as [Hin | ->].
+      * destruct (Iused e pl0 f0 cr' c' uri' ver' Hin Ho Hk) as [A B]. split; [exact A|].
         intros m Hin'. rewrite Scodes in Hin'. apply filter_In in Hin' as [Hin' _]. eapply B; eauto.
-      * cbn in Ho. injection Ho as <- <- <- <-.
+      * cbn in Ho. injection Ho as <- <- <- <- <- <-.
         destruct (Icodes _ _ Hcin) as [A _]. split; [exact A|].
         intros m Hin'. rewrite Scodes in Hin'. apply filter_In in Hin' as [Hin' Hne]. cbn in Hne.
         apply negb_true_iff, Nat.eqb_neq in Hne. apply Hne. eapply Ifun; eauto.
@@ -271,8 +272,8 @@ Proof.
         rewrite St0 in Hk. injection Hk as <-. split; [exact Hle|].
         intros rec Hf. unfold find_rt in Hf. rewrite Srt in Hf. cbn [find] in Hf.
         rewrite Hid, Nat.eqb_refl in Hf. injection Hf as <-. exact Hm.
-    + intros e cr' m sc Hin Ho Hk. apply in_snoc in Hin as [Hin | ->]; [|discriminate].
-      destruct (Irot e cr' m sc Hin Ho Hk) as [A B]. split; [lia|].
+    + intros e pl0 cr' m sc Hin Ho Hk. apply in_snoc in Hin as [Hin | ->]; [|discriminate].
+      destruct (Irot e pl0 cr' m sc Hin Ho Hk) as [A B]. split; [lia|].
       destruct Srt as [[_ Srt] | [new [St0 [Srt [Hid [Hle Hm]]]]]]; unfold find_rt in B |- *; rewrite Srt; [exact B|].
       cbn [find]. rewrite Hid. destruct (Nat.eqb (S (next s)) m) eqn:E; [apply Nat.eqb_eq in E; lia | exact B].
   - (* refresh *)
@@ -295,7 +296,7 @@ Proof.
     + intros c' m Hin. rewrite Scodes in Hin. destruct (Icodes c' m Hin) as [A [[q0 [B1 B2]] [e [C1 C2]]]].
       split; [lia|]. split; [|old]. exists q0. unfold find_req in *. rewrite Sreq. auto.
     + intros c' m m' Hin Hin'. rewrite Scodes in Hin, Hin'. eapply Ifun; eauto.
-    + intros e cr' c' uri' ver' Hin Ho Hk. rewrite Sncode, Scodes. apply in_snoc in Hin as [Hin | ->]; [eauto | discriminate].
+    + intros e pl0 f0 cr' c' uri' ver' Hin Ho Hk. rewrite Sncode, Scodes. apply in_snoc in Hin as [Hin | ->]; [eauto | discriminate].
     + intros t' Hin. rewrite Srt in Hin. destruct Hin as [<- | Hin].
       * split; [lia|]. exists ev, t0. rewrite Hid. auto.
       * apply filter_In in Hin as [Hin _]. destruct (Irts t' Hin) as [A [e [t1 [B1 B2]]]]. split; [lia | oldrt].
@@ -306,10 +307,21 @@ Proof.
       * change (e_out ev) with x1 in Ho. rewrite Sout in Ho. injection Ho as <-. rewrite St0 in Hk. injection Hk as <-.
         split; [lia|]. intros rec Hf. unfold find_rt in Hf. rewrite Srt in Hf. cbn [find] in Hf.
         rewrite Hid, Nat.eqb_refl in Hf. injection Hf as <-. exact Hm.
-    + intros e cr' m sc' Hin Ho Hk. apply in_snoc in Hin as [Hin | ->].
-      * destruct (Irot e cr' m sc' Hin Ho Hk) as [A B]. split; [lia|].
+    + intros e pl0 cr' m sc' Hin Ho Hk. apply in_snoc in Hin as [Hin | ->].
+      * destruct (Irot e pl0 cr' m sc' Hin Ho Hk) as [A B]. split; [lia|].
         destruct (Nat.eq_dec m n) as [-> | Hne]; [exact Hfn|]. rewrite Hfo; auto.
-      * cbn in Ho. injection Ho as <- <- <-. split; [lia | exact Hfn].
+      * cbn in Ho. injection Ho as <- <- <- <-. split; [lia | exact Hfn].
+  - (* the refresh grant of a client is withdrawn: storage objects untouched *)
+    constructor; unfold req_ok, codes_ok, codes_fun, used_ok, rts_ok, issued_ok, rotated_ok, find_req, find_rt;
+      cbn [reqs codes rtoks next ncode].
+    + intros q Hin. destruct (Ireq q Hin) as [A [[e [B1 B2]] C]]. split; [exact A|]. split; [old|].
+      intro Hd. destruct (C Hd) as [e' [C1 C2]]. old.
+    + intros c n Hin. destruct (Icodes c n Hin) as [A [B [e [C1 C2]]]]. split; [exact A | split; [exact B | old]].
+    + exact Ifun.
+    + intros e pl0 f0 cr c uri ver Hin Ho Hk. apply in_snoc in Hin as [Hin | ->]; [eauto | discriminate].
+    + intros t Hin. destruct (Irts t Hin) as [A [e [t0 [B1 B2]]]]. split; [exact A | oldrt].
+    + intros e t0 n Hin Ho Hk. apply in_snoc in Hin as [Hin | ->]; [eauto | discriminate].
+    + intros e pl0 cr n sc Hin Ho Hk. apply in_snoc in Hin as [Hin | ->]; [eauto | discriminate].
 Qed.
 
 Lemma reach_inv h s : reach h s -> Inv h s.
